@@ -527,10 +527,15 @@ class ModelBase:
             return ('SITE', False)
         if inner.ty == 'list' and inner.elem is not None and inner.elem.ty == 'Species':
             return ('ATOM',)
+        ax0 = None
         if inner.ty == 'zip' and inner.inners and inner.inners[0].ty == 'ndarray' and inner.inners[0].axes:
-            return {'atom': ('ATOM',), 'frame': ('FRAME', 'enum'), 'site': ('SITE', False)}.get(inner.inners[0].axes[0])
-        if inner.ty == 'ndarray' and inner.axes:
-            return {'atom': ('ATOM',), 'frame': ('FRAME', 'enum'), 'site': ('SITE', False)}.get(inner.axes[0])
+            ax0 = inner.inners[0].axes[0]
+        elif inner.ty == 'ndarray' and inner.axes:
+            ax0 = inner.axes[0]
+        if ax0 is not None:
+            if ax0.endswith('~'):
+                return ('SUBPOS', ax0[:-1])  # position inside a filtered selection, not the index along the original axis
+            return {'atom': ('ATOM',), 'frame': ('FRAME', 'enum'), 'site': ('SITE', False)}.get(ax0)
         return None
 
     def maybe_empty_iter(self, it):
